@@ -266,6 +266,9 @@ func modelInput(c *schemaCase, fuel int) (string, []string, string) {
 	if err != nil {
 		return "", nil, "data does not decode"
 	}
+	if why := unsupportedRefs(c.Schema); why != "" {
+		return "", nil, why
+	}
 	schemaSx := e.schema(s)
 	// definitions environment: every reference, expanded the way newSchemaValidator expands it when it meets it
 	refs := map[string]struct{}{}
@@ -328,7 +331,7 @@ func modelInput(c *schemaCase, fuel int) (string, []string, string) {
 	if e.unsupported != "" {
 		return "", nil, e.unsupported
 	}
-	sx := fmt.Sprintf("(%s %s (%s) %s %d %s %d)", orc, opts, strings.Join(defs, " "), schemaSx, rootID, dataSx, fuel)
+	sx := fmt.Sprintf("(%s %s (%s) %s %d %s %d %s)", orc, opts, strings.Join(defs, " "), schemaSx, rootID, dataSx, fuel, decTable(c.Schema, c.Data))
 	return sx, e.in.texts, ""
 }
 
@@ -340,7 +343,7 @@ func schemaRun(in *bufio.Scanner, out *bufio.Writer) {
 			continue
 		}
 		rec := map[string]interface{}{"id": c.ID}
-		sx, texts, why := modelInput(&c, 64)
+		sx, texts, why := modelInput(&c, caseFuel(&c))
 		if why != "" {
 			rec["skip"] = why
 		} else {
@@ -358,4 +361,76 @@ func schemaRun(in *bufio.Scanner, out *bufio.Writer) {
 
 func init() {
 	props["schema"] = propCmd{gen: schemaGen, run: schemaRun}
+}
+
+// unsupportedRefs scans the raw schema for "$ref" members that are not local references into definitions.
+func unsupportedRefs(raw []byte) string {
+	var v interface{}
+	if json.Unmarshal(raw, &v) != nil {
+		return ""
+	}
+	why := ""
+	var walk func(x interface{})
+	walk = func(x interface{}) {
+		switch t := x.(type) {
+		case map[string]interface{}:
+			for k, el := range t {
+				if k == "$ref" {
+					if r, ok := el.(string); ok {
+						if !strings.HasPrefix(r, "#/definitions/") || strings.Contains(strings.TrimPrefix(r, "#/definitions/"), "/") {
+							why = "reference outside #/definitions/<name>: " + r
+						}
+						continue
+					}
+				}
+				if k == "enum" || k == "default" {
+					continue
+				}
+				walk(el)
+			}
+		case []interface{}:
+			for _, el := range t {
+				walk(el)
+			}
+		}
+	}
+	walk(v)
+	return why
+}
+
+func jsonDepth(v interface{}) int {
+	d := 0
+	switch t := v.(type) {
+	case map[string]interface{}:
+		for _, el := range t {
+			if x := jsonDepth(el); x > d {
+				d = x
+			}
+		}
+		return d + 1
+	case []interface{}:
+		for _, el := range t {
+			if x := jsonDepth(el); x > d {
+				d = x
+			}
+		}
+		return d + 1
+	}
+	return 1
+}
+
+// caseFuel: every nesting level of the instance can cross the whole depth of the schema (through references)
+func caseFuel(c *schemaCase) int {
+	var sv, dv interface{}
+	_ = json.Unmarshal(c.Schema, &sv)
+	_ = json.Unmarshal(c.Data, &dv)
+	sd, dd := jsonDepth(sv), jsonDepth(dv)
+	f := 16 + (dd+1)*(sd+2)
+	if !bytes.Contains(c.Schema, []byte("$ref")) {
+		f = 16 + 2*sd
+	}
+	if f > 20000 {
+		f = 20000
+	}
+	return f
 }
